@@ -3,7 +3,7 @@
 # (a side copy of the simulator is built against that worktree; /repo and the committed evidence are not touched).
 W=$1; shift
 mkdir -p /tmp/sim-mut
-rsync -a --delete --exclude target /verif/sim/ /tmp/sim-mut/
+rsync -a --delete --exclude target ${SIM_SRC:-/verif/sim}/ /tmp/sim-mut/
 sed -i "s#arroy = { path = \"/repo\"#arroy = { path = \"$W\"#" /tmp/sim-mut/Cargo.toml
 (cd /tmp/sim-mut && CARGO_NET_OFFLINE=true cargo build --release --offline 2>&1 | grep -E "^error" -A8 | head -20)
 for id in "$@"; do
